@@ -19,7 +19,7 @@ def coCall (w : World) (owner fn : Nat) (tag : String) (delay : Int) (fp : Bool)
 
 theorem newCallOut_fst (w : World) (o f : Nat) (tag : String) (delay : Int) (fp : Bool) :
     (newCallOut w o f tag delay fp).1 =
-      setSlot { w with cot := coCot w, unique := w.unique + 1 } (coSlot w delay)
+      setSlot { w with cot := coCot w, unique := w.unique + 1, numCall := allocCall w } (coSlot w delay)
         (insertDelta (w.slots (coSlot w delay)) (coRot w delay) (coCall w o f tag delay fp)) := by
   unfold newCallOut coCall coRot coSlot coDue coCot coD
   simp only [tie_clampDelay, tie_initCot, tie_slotExpr, tie_rotExpr, tie_handleExpr]
@@ -53,7 +53,7 @@ theorem coRot_due {w : World} (h : WheelInv w) (delay : Int) :
 
 /-- entries already in the wheel stay well placed when `new_call_out` initialises `call_out_time` -/
 theorem old_ent_co {w : World} (h : WheelInv w) (s : Nat) (p : Int × Call) (hp : p ∈ cum 0 (w.slots s)) :
-    EntOK { w with cot := coCot w, unique := w.unique + 1 } s p := by
+    EntOK { w with cot := coCot w, unique := w.unique + 1, numCall := allocCall w } s p := by
   by_cases h0 : w.cot = 0
   · rw [h.fresh h0 s] at hp; simp at hp
   · have e := h.ent s p hp
@@ -64,7 +64,7 @@ theorem old_ent_co {w : World} (h : WheelInv w) (s : Nat) (p : Int × Call) (hp 
 theorem newCallOut_ok {w : World} (h : WheelInv w) (o f : Nat) (tag : String) (delay : Int) (fp : Bool) :
     StepOK w (newCallOut w o f tag delay fp).1 := by
   rw [newCallOut_fst]
-  have hcum : ∀ s, cum 0 ((setSlot { w with cot := coCot w, unique := w.unique + 1 } (coSlot w delay)
+  have hcum : ∀ s, cum 0 ((setSlot { w with cot := coCot w, unique := w.unique + 1, numCall := allocCall w } (coSlot w delay)
         (insertDelta (w.slots (coSlot w delay)) (coRot w delay) (coCall w o f tag delay fp))).slots s) =
       if s = coSlot w delay then insC (coRot w delay) (coCall w o f tag delay fp) (cum 0 (w.slots s))
       else cum 0 (w.slots s) := by
@@ -113,7 +113,7 @@ theorem newCallOut_ok {w : World} (h : WheelInv w) (o f : Nat) (tag : String) (d
 theorem removeByHandle_ok {w : World} (h : WheelInv w) (hd : Nat) : StepOK w (removeByHandle w hd).1 := by
   unfold removeByHandle
   simp only []
-  cases hr : removeFirst (fun c => c.handle == hd) (w.slots (slotOf hd)) 0 with
+  cases hr : removeFirst (fun c => c.handle == hd) (w.slots (handleSlot hd)) 0 with
   | none => exact StepOK.refl h
   | some r =>
     obtain ⟨x, A, B, e1, e2, _⟩ := removeFirst_sublist hr
@@ -127,6 +127,13 @@ theorem removeByName_ok {w : World} (h : WheelInv w) (o f : Nat) : StepOK w (rem
     have := (scanFrom_some (j := r.1) (a := r.2) hr).2.2
     obtain ⟨x, A, B, e1, e2, _⟩ := removeFirst_sublist this
     exact StepOK.setSlot_sublist h _ _ (by rw [e1, e2]; exact sublist_of_split)
+
+theorem reloadObj_ok {w : World} (h : WheelInv w) (o : Nat) : StepOK w (reloadObj w o) := by
+  refine StepOK.of_sublist h rfl rfl rfl ?_
+  intro s
+  show (cum 0 (removeAllList _ (w.slots s))).Sublist _
+  rw [cum_removeAllList]
+  exact List.filter_sublist
 
 theorem removeAll_ok {w : World} (h : WheelInv w) (o : Nat) : StepOK w (removeAll w o) := by
   refine StepOK.of_sublist h rfl rfl rfl ?_
@@ -158,6 +165,8 @@ theorem stepOp_ok {w : World} (h : WheelInv w) (self : Nat) (op : Op) : StepOK w
     · exact (StepOK.refl h).congr rfl rfl rfl rfl
   | err => exact (StepOK.refl h).congr rfl rfl rfl rfl
   | info => exact (StepOK.refl h).congr rfl rfl rfl rfl
+  | reload => exact (reloadObj_ok h self).congr rfl rfl rfl rfl
+  | usage => exact (StepOK.refl h).congr rfl rfl rfl rfl
 
 theorem runOps_ok {w : World} (h : WheelInv w) (self : Nat) (ops : List Op) :
     StepOK w (runOps w self ops).1 := by
@@ -179,9 +188,9 @@ theorem fireOne_ok {w : World} (h : WheelInv w) (sc : Scripts) (cop : Entry) : S
   · split
     · exact (StepOK.refl h).congr rfl rfl rfl rfl
     · exact StepOK.refl h
-  · have h1 : WheelInv (emit { w with giver := liveGiver w cop.c.giver }
+  · have h1 : WheelInv (emit { w with giver := liveGiver w cop.c.giver, busy := 1 }
         (.fire (vnow w) cop.c.owner cop.c.fn cop.c.tag (liveGiver w cop.c.giver))) := h.congr rfl rfl rfl rfl
     have := runOps_ok h1 cop.c.owner (sc cop.c.owner cop.c.tag)
-    exact ⟨this.inv, this.cot, this.now, this.zc, this.uniq⟩
+    exact ⟨this.inv.congr rfl rfl rfl rfl, this.cot, this.now, this.zc, this.uniq⟩
 
 end NV.C10
